@@ -311,13 +311,14 @@ class CaseResult:
 class Probe:
     """One vprobe child.  case(ops) sends BEGIN/ops/END and collects the replies; if the child dies
     the sanitizer report is read from its stderr file and the child is restarted for the next case."""
-    def __init__(self, flavor="asan", binary="vprobe", modules=False, extra_env=None, leaks=False, timeout=60):
+    def __init__(self, flavor="asan", binary="vprobe", modules=False, extra_env=None, leaks=False, timeout=60, cwd=None):
         self.bdir = build(flavor)
         self.binary = os.path.join(self.bdir, "harness", binary)
         self.modules = modules
         self.extra_env = extra_env or {}
         self.leaks = leaks
         self.timeout = timeout
+        self.cwd = cwd
         self.proc = None
         self.errf = None
         self.ncase = 0
@@ -335,7 +336,7 @@ class Probe:
         env.update(self.extra_env)
         self.errf = tempfile.TemporaryFile(prefix="vprobe_err_")
         self.proc = subprocess.Popen([self.binary], stdin=subprocess.PIPE, stdout=subprocess.PIPE, stderr=self.errf,
-                                     env=env, preexec_fn=_preexec, bufsize=0)
+                                     env=env, preexec_fn=_preexec, bufsize=0, cwd=self.cwd)
         self._rbuf = b""
         self.restarts += 1
 
